@@ -72,7 +72,7 @@ func (t *idScalar) CoerceOut(v interface{}) (interface{}, error) {
 	case int64:
 		v = strconv.FormatInt(tv, 10)
 	case uint:
-		v = strconv.Itoa(int(tv))
+		v = strconv.FormatUint(uint64(tv), 10)
 	case uint8:
 		v = strconv.Itoa(int(tv))
 	case uint16:
@@ -80,7 +80,7 @@ func (t *idScalar) CoerceOut(v interface{}) (interface{}, error) {
 	case uint32:
 		v = strconv.Itoa(int(tv))
 	case uint64:
-		v = strconv.FormatInt(int64(tv), 10)
+		v = strconv.FormatUint(tv, 10)
 	case string:
 		// ok as is
 	default:
